@@ -19,6 +19,15 @@ CHECKS = {
             "step by step by the trace specification.",
             "TLC 1.8; values are opaque tokens in traces (arithmetic is C02); listing order not compared; arithmetic-undefined "
             "calls end a random history", "5/C01"),
+    "C02": ("ExprEval", "TLA+ specification of the expression language (trees, Denote on exact rationals, Render, transcription "
+            "of the rewriting passes and of makeRPN) enumerated by TLC; strings and expected vectors printed by the model are "
+            "replayed on Track.operate / operator objects (spec->code)",
+            "TLC enumerates all 431 465 trees with <= 2 nested operators (+ unary minus, 15 functions) and checks that the "
+            "implementation's splitter reads every rendering back as the same tree; the model's value of every tree on 5 "
+            "environments (sizes 1-4, zeros, negatives, ties, NaN) is compared with operate()/bracket/assignment/coordinate "
+            "assignment/operator objects; random shapes to depth 6 go through the same model.",
+            "TLC 1.8; exact rationals with Undef at arithmetic-undefined points; transcendental functions not claimed; quick "
+            "tier replays a seeded 1/40 sample of the enumerated trees (thorough: all)", "5/C02"),
     "C03": ("Calendar", "TLA+ clock model (day chain 1970-2099 x time-of-day lattice) checked exhaustively by TLC; every "
             "state/transition replayed on ObsTime (spec->code conformance)",
             "TLC enumerates every calendar day of 1970-2099 and checks the calendar invariants on the model; every "
